@@ -441,6 +441,36 @@ def run(rep):
         b = g.term(rng.choice([B.BOOL, B.BOOL, B.BOOL, B.INT, B.BV(3)]))
         mode = modes[j % 3]
         which = j % 4
+        if j % 5 == 2:
+            # a substitution that fails half-way (ill-typed replacement for
+            # the last free symbol) right before the one under test: it
+            # must leave nothing behind in the shared substituter
+            try:
+                from pysmt.environment import get_env
+                env_ = get_env()
+                f_ = B.build(b, env_)
+                fv_ = sorted((s_ for s_ in f_.get_free_variables()
+                              if not s_.symbol_type().is_function_type()),
+                             key=lambda s_: s_.symbol_name())
+                if len(fv_) >= 2:
+                    mg_ = env_.formula_manager
+                    bad_ = mg_.Int(5) if not fv_[-1].symbol_type() \
+                        .is_int_type() else mg_.TRUE()
+                    other_ = [y_ for y_ in fv_[:-1] if y_.symbol_type() ==
+                              fv_[0].symbol_type() and y_ is not fv_[0]]
+                    m_ = {fv_[-1]: bad_}
+                    if other_:
+                        m_[fv_[0]] = other_[0]
+                    M.SUSPENDED[0] = True
+                    try:
+                        f_.substitute(m_)
+                        rep.count('ill_typed_substitution_did_not_fail')
+                    except Exception:
+                        rep.count('failing_substitutions_before_a_check')
+                    finally:
+                        M.SUSPENDED[0] = False
+            except Exception:
+                pass
         rep.case(key=hash(b) ^ j, sample='%s [%s]' % (B.show(b, 120), mode)
                  if j % 211 == 0 else None)
         # ---- (a) symbol maps
